@@ -251,11 +251,21 @@ def R5_target_clamp(run):
     for (bi, t, args) in calls_to(sw, ends("compute_swap"), ctx={}, cut="all"):
         tgt = strip(args[4])
         # bounded target derives from get_next_sqrt_prices(..).1 through the fee-rate manager
+        def derives(t_, depth=0):
+            # through named temporaries (a helper spliced in hands the value on through its own locals)
+            if mentions(t_, lambda s: s[0] == "call" and s[1].endswith("get_bounded_sqrt_price_target")):
+                return True
+            if depth < 3:
+                for s_ in subterms(t_):
+                    if s_[0] == "var":
+                        ds = pv.var_defs(s_[2])
+                        if 1 <= len(ds) <= 2 and all(derives(d[2], depth + 1) for d in ds):
+                            return True
+            return False
         l = tgt[2] if tgt[0] == "var" else None
         if l is not None:
-            for (_, _, term) in pv.var_defs(l):
-                if mentions(term, lambda s: s[0] == "call" and s[1].endswith("get_bounded_sqrt_price_target")):
-                    ok = True
+            ds0 = pv.var_defs(l)
+            ok = bool(ds0) and all(derives(term) for (_, _, term) in ds0)
     run.check("R5", "target-used", ok, "compute_swap's target price does not come from get_bounded_sqrt_price_target(step target)", loc=sw.loc(),
               detail="compute_swap(.., bounded target, ..)")
 
